@@ -563,16 +563,16 @@ func c03Run(r *core.Run) {
 		}
 	}
 	if r.Thorough() {
-		r.SetBudget(18 * time.Minute)
+		r.SetBudget(22 * time.Minute)
 		rich := c03Behaviours(3, "T", "TC", "TN", "NT", "TCN", "TNC", "CT", "TW", "TT", "TTC", "G", "GN", "GW")
 		mid := c03Behaviours(2, "T", "TC", "TN", "NT", "TCN", "TNC", "CT", "TW", "TT", "TTC", "G", "GN", "GW")
 		plans = []plan{
 			{1, 3, mid, "<=3 positions, every shape and variant, action strings <=2 over {N,W,C} plus ten context-installing ones", 0},
 			{1, 2, rich, "<=2 positions, every shape and variant, action strings <=3", 0},
 			{3, 3, rich, "3 positions, base shapes, action strings <=3 plus context-installing ones", 1},
-			{4, 4, c03Behaviours(2, "T", "TC", "G"), "4 positions, base shapes, action strings <=2 plus T, TC, G", 1},
+			{4, 4, c03Behaviours(2, "T", "G"), "4 positions, base shapes, action strings <=2 plus T, G", 1},
 			{4, 4, red, "4 positions, variant shapes, actions {'',N,W,NN,C,T,TC} x {nothing,string,panic}", 2},
-			{5, 5, c03Behaviours(1, "T", "TC", "G"), "5 positions, base shapes, action strings <=1 plus T, TC, G", 1},
+			{5, 5, c03Behaviours(1, "T", "G"), "5 positions, base shapes, action strings <=1 plus T, G", 1},
 		}
 	} else {
 		r.SetBudget(70 * time.Second)
